@@ -23,6 +23,8 @@ pub struct ScriptModel {
     /// blocks examined under earlier registrations
     pub prev: Coverage,
     pub last_progress: u64,
+    /// set while the reported height is the result of a rollback that has not been re-synced
+    pub rolled_back_to: Option<u64>,
 }
 
 #[derive(Clone, Debug, Default)]
@@ -339,7 +341,11 @@ impl Checker {
         if sim.trace.is_some() && sim.events % 50 == 0 {
             let d = self.describe_progress(sim);
             let t = self.tip_is_best(sim);
-            sim.log(format!("progress: tip_is_best={} {}", t, d));
+            let (now, ev) = (sim.now, sim.events);
+            if let Some(tr) = sim.trace.as_mut() {
+                // not part of the trace hash (only exists in verbose replays)
+                tr.push(format!("[{:>8} #{:<5}] progress: tip_is_best={} {}", now, ev, t, d));
+            }
         }
         if self.is_caught_up(sim) {
             sim.stat("probe.caught_up_instant");
@@ -394,7 +400,15 @@ impl Checker {
             }
         }
         if self.flag("expect_caught_up") {
-            if self.first_caught_up_after_quiet.is_none() {
+            let any_connected = sim.peers.iter().any(|p| p.session.is_some());
+            let has_scripts = !sim
+                .client
+                .as_ref()
+                .unwrap()
+                .storage
+                .get_filter_scripts()
+                .is_empty();
+            if self.first_caught_up_after_quiet.is_none() && any_connected && has_scripts {
                 let detail = self.describe_progress(sim);
                 let prop = if self.flag("crash") {
                     "C08"
@@ -432,6 +446,9 @@ impl Checker {
             if ss.block_number < m.last_progress {
                 // rollback: earlier coverage above the new height is void
                 m.prev.truncate(ss.block_number);
+                m.rolled_back_to = Some(ss.block_number);
+            } else if ss.block_number > m.last_progress {
+                m.rolled_back_to = None;
             }
             m.last_progress = ss.block_number;
         }
@@ -576,6 +593,7 @@ impl Checker {
             None => return, // C12 reports unknown tips
         };
         let prop = self.index_property();
+        let step = !when.starts_with("caught_up");
         let reported: Vec<(ScriptKey, u64)> = {
             let c = sim.client.as_ref().unwrap();
             c.storage
@@ -638,7 +656,7 @@ impl Checker {
             sim.stat_add("probe.audit_pages", got.pages);
             sim.stat_add("probe.audit_cells", got.cells.len() as u64);
             sim.stat_add("probe.audit_entries", got.entries.len() as u64);
-            for (clause, detail) in refidx::compare(
+            for (clause, detail, block) in refidx::compare(
                 &sim.world,
                 &key,
                 &truth,
@@ -648,7 +666,22 @@ impl Checker {
                 tip_number,
                 &tip_hash,
             ) {
-                sim.violate(prop, &clause, format!("[{}] {}", when, detail));
+                let completeness = matches!(
+                    clause.as_str(),
+                    "missing_live_cell" | "missing_tx_entry" | "spent_cell_reported_live"
+                );
+                if step && completeness {
+                    // mid-sync: the answers are judged against the height get_scripts reports (C09)
+                    let after_rollback = m.rolled_back_to == Some(progress) && block == progress;
+                    let c = if after_rollback {
+                        "rollback_reports_removed_block_as_filtered".to_string()
+                    } else {
+                        format!("reported_height_but_{}", clause)
+                    };
+                    sim.violate("C09", &c, format!("[{}] {}", when, detail));
+                } else {
+                    sim.violate(prop, &clause, format!("[{}] {}", when, detail));
+                }
             }
         }
     }
